@@ -10,6 +10,7 @@ Reading of the property used here (see NOTES/C15.md):
 -/
 import RtcModel.Lemmas.C15Rtp
 import RtcModel.Lemmas.C15Ext
+import RtcModel.Lemmas.C15Rtcp
 
 namespace RtcModel.Theorems.C15
 open RtcModel.C15 RtcModel.Generated
@@ -206,5 +207,230 @@ theorem ext_set_aligned (h h' : Header) (id : UInt8) (data : Bytes) (hs : setExt
 example : setExtension (Header.new 96 1 2 3) 5 [0xAA, 0xBB] =
     .ok { Header.new 96 1 2 3 with ext := some ⟨0xBEDE, [0x51, 0xAA, 0xBB, 0]⟩ } := by
   simp [setExtension, Header.new, rebuild_nil, oneByteElem, pad4, u8]
+
+/-! ### NACK packing (RFC 4585 §6.2.1) -/
+
+/-- **nack_pack_set**: packing any list of lost sequence numbers into (PID, BLP) pairs and expanding
+the pairs again yields exactly the same *set* — for every list (unsorted, with duplicates, straddling
+65535 → 0; all `2^16`-element sets, not samples). -/
+theorem nack_pack_set (xs : List UInt16) (x : UInt16) : x ∈ unpackNack (packNack xs) ↔ x ∈ xs := by
+  unfold packNack
+  rw [mem_unpack_packSorted x _ _ rfl, mem_sortDedup]
+
+/-- the 16-bit BLP field never overflows: every mask `pack_nack_pairs` produces is below 2^16 and there
+are at most as many pairs as input sequence numbers -/
+theorem nack_pack_fits (xs : List UInt16) :
+    (∀ p ∈ packNack xs, p.2 < 65536) ∧ (packNack xs).length ≤ xs.length :=
+  ⟨packSorted_blp_lt _ _ rfl, packNack_length_le xs⟩
+
+example : packNack [65535, 0, 1, 65534] = [(0, 1), (65534, 1)] ∧
+    unpackNack (packNack [65535, 0, 1, 65534]) = [0, 1, 65534, 65535] := by
+  simp [packNack, sortDedup, insertAsc, packSorted_cons, packSorted_nil, absorb, unpackNack, blpSeqs,
+    c15NackBlpSpan_val, Nat.testBit]
+
+/-! ### RTCP -/
+
+/-- **rtcp_marshal_canonical** — the full-strength inverse law: for EVERY compound packet the
+marshaller accepts (inside `Dom`: Rust-type invariants, SDES item type ≠ END, bodies that fit the 16-bit
+length field), parsing the bytes succeeds, yields the same number of packets of the same types, and
+each packet is the explicit canonical form `canon p` of what was sent (saturated loss count, BYE reason
+cut at 255 bytes, NACK list in wire order, REMB rounded to 18 significant bits, TWCC reference time mod
+2^24 and payload zero-extended to 32 bits). -/
+theorem rtcp_marshal_canonical (ps : List Rtcp) (hd : ∀ p ∈ ps, Dom p) (bs : Bytes)
+    (hm : marshalCompound ps = .ok bs) : parseCompound bs = .ok (ps.map canon) := by
+  induction ps generalizing bs with
+  | nil =>
+    simp only [marshalCompound, Except.ok.injEq] at hm
+    subst hm
+    rw [parseCompound.eq_def]; rfl
+  | cons p ps ih =>
+    simp only [marshalCompound] at hm
+    cases h1 : marshalOne p with
+    | error e => rw [h1] at hm; cases hm
+    | ok b =>
+      rw [h1] at hm
+      cases h2 : marshalCompound ps with
+      | error e => rw [h2] at hm; cases hm
+      | ok r =>
+        rw [h2] at hm
+        simp only [Except.ok.injEq] at hm
+        subst hm
+        have := parse_marshalOne p (hd p (List.mem_cons_self ..)) b h1 r
+        unfold ReadsAs at this
+        rw [this, ih (fun q hq => hd q (List.mem_cons_of_mem _ hq)) r h2]
+        rfl
+
+/-- **rtcp_compound_roundtrip** (`rtcp_parse_marshal` for compound packets of every supported report and
+feedback format): a compound packet whose members are inside the property's ranges serialises
+without error and parses back to exactly the same list of logical packets. -/
+theorem rtcp_compound_roundtrip (ps : List Rtcp) (w : ∀ p ∈ ps, p.WF) :
+    ∃ bs, marshalCompound ps = .ok bs ∧ parseCompound bs = .ok ps := by
+  have hex : ∃ bs, marshalCompound ps = .ok bs := by
+    induction ps with
+    | nil => exact ⟨[], rfl⟩
+    | cons p ps ih =>
+      obtain ⟨b, hb⟩ := marshalOne_ok_of_wf (w p (List.mem_cons_self ..))
+      obtain ⟨r, hr⟩ := ih (fun q hq => w q (List.mem_cons_of_mem _ hq))
+      exact ⟨b ++ r, by simp only [marshalCompound, hb, hr]⟩
+  obtain ⟨bs, hbs⟩ := hex
+  refine ⟨bs, hbs, ?_⟩
+  rw [rtcp_marshal_canonical ps (fun p hp => dom_of_wf (w p hp)) bs hbs]
+  congr 1
+  have : ∀ (l : List Rtcp), (∀ p ∈ l, p.WF) → l.map canon = l := by
+    intro l hl
+    induction l with
+    | nil => rfl
+    | cons q l ih =>
+      simp only [List.map_cons]
+      rw [canon_of_wf (hl q (List.mem_cons_self ..)), ih (fun x hx => hl x (List.mem_cons_of_mem _ hx))]
+  exact this ps w
+
+/-- per type, with the ranges spelled out — **SR / RR**: ≤ 31 report blocks, 24-bit signed loss counts -/
+theorem rtcp_parse_marshal_sr (s m l t pc oc : UInt32) (bl : List ReportBlock) (hn : bl.length ≤ 31)
+    (hl : ∀ b ∈ bl, -8388608 ≤ b.lost ∧ b.lost ≤ 8388607) :
+    ∃ bs, marshalCompound [.sr s m l t pc oc bl] = .ok bs ∧ parseCompound bs = .ok [.sr s m l t pc oc bl] :=
+  rtcp_compound_roundtrip _ (by intro p hp; simp only [List.mem_singleton] at hp; subst hp; exact ⟨hn, hl⟩)
+
+theorem rtcp_parse_marshal_rr (s : UInt32) (bl : List ReportBlock) (hn : bl.length ≤ 31)
+    (hl : ∀ b ∈ bl, -8388608 ≤ b.lost ∧ b.lost ≤ 8388607) :
+    ∃ bs, marshalCompound [.rr s bl] = .ok bs ∧ parseCompound bs = .ok [.rr s bl] :=
+  rtcp_compound_roundtrip _ (by intro p hp; simp only [List.mem_singleton] at hp; subst hp; exact ⟨hn, hl⟩)
+
+/-- **SDES**: ≤ 31 chunks, every item of type ≠ END with ≤ 255 bytes of valid UTF-8, body fits the length field -/
+theorem rtcp_parse_marshal_sdes (cs : List SdesChunk) (hn : cs.length ≤ 31)
+    (hi : ∀ c ∈ cs, ∀ i ∈ c.items, i.ty ≠ 0 ∧ i.text.length ≤ 255 ∧ lossy i.text = i.text)
+    (hsz : (sdesBody [] cs).length + 3 < 262144) :
+    ∃ bs, marshalCompound [.sdes cs] = .ok bs ∧ parseCompound bs = .ok [.sdes cs] :=
+  rtcp_compound_roundtrip _ (by intro p hp; simp only [List.mem_singleton] at hp; subst hp; exact ⟨hn, hi, hsz⟩)
+
+/-- **BYE**: ≤ 31 sources, optional reason of ≤ 255 bytes of valid UTF-8 (`Some("")` and `None` are distinct and both preserved) -/
+theorem rtcp_parse_marshal_bye (ss : List UInt32) (r : Option Bytes) (hn : ss.length ≤ 31)
+    (hr : ∀ x, r = some x → x.length ≤ 255 ∧ lossy x = x) :
+    ∃ bs, marshalCompound [.bye ss r] = .ok bs ∧ parseCompound bs = .ok [.bye ss r] :=
+  rtcp_compound_roundtrip _ (by intro p hp; simp only [List.mem_singleton] at hp; subst hp; exact ⟨hn, hr⟩)
+
+/-- **PLI**: no condition at all -/
+theorem rtcp_parse_marshal_pli (s m : UInt32) :
+    ∃ bs, marshalCompound [.pli s m] = .ok bs ∧ parseCompound bs = .ok [.pli s m] :=
+  rtcp_compound_roundtrip _ (by intro p hp; simp only [List.mem_singleton] at hp; subst hp; trivial)
+
+/-- **FIR**: any number of entries that fits the length field -/
+theorem rtcp_parse_marshal_fir (s : UInt32) (rq : List FirReq) (hn : rq.length ≤ 30000) :
+    ∃ bs, marshalCompound [.fir s rq] = .ok bs ∧ parseCompound bs = .ok [.fir s rq] :=
+  rtcp_compound_roundtrip _ (by intro p hp; simp only [List.mem_singleton] at hp; subst hp; exact hn)
+
+/-- **generic NACK** through the wire: a non-empty list comes back as a list with exactly the same
+members (wrap-around included) -/
+theorem rtcp_parse_marshal_nack (s m : UInt32) (lost : List UInt16) (hne : lost ≠ []) (hn : lost.length ≤ 60000) :
+    ∃ bs lost', marshalCompound [.nack s m lost] = .ok bs ∧ parseCompound bs = .ok [.nack s m lost'] ∧
+      ∀ x, x ∈ lost' ↔ x ∈ lost := by
+  have hemp : lost.isEmpty = false := by cases lost with | nil => exact absurd rfl hne | cons _ _ => rfl
+  have hm : marshalCompound [.nack s m lost] = .ok (writeRtcp c15FmtNack c15RtcpRtpfb
+      (be32 s ++ be32 m ++ (packNack lost).flatMap pairBytes) ++ []) := by
+    simp only [marshalCompound, marshalOne, hemp]; rfl
+  refine ⟨_, unpackNack (packNack lost), hm, ?_, nack_pack_set lost⟩
+  rw [rtcp_marshal_canonical _ (by intro p hp; simp only [List.mem_singleton] at hp; subst hp; exact hn) _ hm]
+  rfl
+
+/-- **REMB**: ≤ 255 SSRCs and a representable bitrate (`rembCanon br = br`: at most 18 significant bits) -/
+theorem rtcp_parse_marshal_remb (s : UInt32) (br : Nat) (ss : List UInt32) (hn : ss.length ≤ 255)
+    (hb : br < 2 ^ 64) (hrep : rembCanon br = br) :
+    ∃ bs, marshalCompound [.remb s br ss] = .ok bs ∧ parseCompound bs = .ok [.remb s br ss] :=
+  rtcp_compound_roundtrip _ (by intro p hp; simp only [List.mem_singleton] at hp; subst hp; exact ⟨hn, hb, hrep⟩)
+
+/-- **TWCC**: 24-bit reference time, 32-bit aligned opaque status/delta payload -/
+theorem rtcp_parse_marshal_twcc (s m : UInt32) (b c : UInt16) (r : UInt32) (f : UInt8) (pl : Bytes)
+    (hr : r.toNat < 16777216) (hal : pl.length % 4 = 0) (hn : pl.length ≤ 200000) :
+    ∃ bs, marshalCompound [.twcc s m b c r f pl] = .ok bs ∧ parseCompound bs = .ok [.twcc s m b c r f pl] :=
+  rtcp_compound_roundtrip _ (by intro p hp; simp only [List.mem_singleton] at hp; subst hp; exact ⟨hr, hal, hn⟩)
+
+example : Rtcp.WF (.remb 1 750000 [2, 3]) := by
+  refine ⟨by decide, by decide, ?_⟩
+  simp [rembCanon, rembNorm, c15RembMantissaMax_val]
+
+example : Rtcp.WF (.rr 7 [⟨1, 2, -8388608, 3, 4, 5, 6⟩, ⟨1, 2, 8388607, 3, 4, 5, 6⟩]) :=
+  ⟨by decide, by intro b hb; simp at hb; rcases hb with rfl | rfl <;> decide⟩
+
+/-- out-of-range inputs that cannot be put on the wire at all -/
+def OutOfRange : Rtcp → Prop
+  | .sr _ _ _ _ _ _ bl => bl.length > 31
+  | .rr _ bl => bl.length > 31
+  | .sdes cs => cs.length > 31 ∨ ∃ c ∈ cs, ∃ i ∈ c.items, i.text.length > 255
+  | .bye ss _ => ss.length > 31
+  | .nack _ _ lost => lost = []
+  | .remb _ _ ss => ss.length > 255
+  | _ => False
+
+/-- **rtcp_marshal_rejects_out_of_range**: the marshaller returns an error exactly for the inputs whose
+count or length field would overflow (more than 31 report blocks / chunks / sources, SDES text above 255
+bytes, more than 255 REMB SSRCs) and for an empty NACK — never a silently mis-framed packet
+(true since the `fix:` commit; before it the first three classes were serialised with `count & 0x1F`
+/ `len as u8`). Everything else is serialised, and `rtcp_marshal_canonical` says what comes back. -/
+theorem rtcp_marshal_rejects_out_of_range (p : Rtcp) : (∃ e, marshalOne p = .error e) ↔ OutOfRange p := by
+  have hMax : c15RtcpMaxCount = 31 := c15RtcpMaxCount_val
+  have h255 : c15RembMaxSsrcs = 255 := c15RembMaxSsrcs_val
+  cases p with
+  | sr s m l t pc oc bl =>
+    simp only [marshalOne, OutOfRange]
+    by_cases hc : bl.length > c15RtcpMaxCount
+    · rw [if_pos hc]; exact ⟨fun _ => by omega, fun _ => ⟨_, rfl⟩⟩
+    · rw [if_neg hc]; exact ⟨(fun ⟨e, he⟩ => by cases he), fun h => by omega⟩
+  | rr s bl =>
+    simp only [marshalOne, OutOfRange]
+    by_cases hc : bl.length > c15RtcpMaxCount
+    · rw [if_pos hc]; exact ⟨fun _ => by omega, fun _ => ⟨_, rfl⟩⟩
+    · rw [if_neg hc]; exact ⟨(fun ⟨e, he⟩ => by cases he), fun h => by omega⟩
+  | sdes cs =>
+    simp only [marshalOne, OutOfRange]
+    by_cases hc : cs.length > c15RtcpMaxCount
+    · rw [if_pos hc]; exact ⟨fun _ => Or.inl (by omega), fun _ => ⟨_, rfl⟩⟩
+    · rw [if_neg hc]
+      cases htl : sdesTextTooLong cs with
+      | true =>
+        simp only [if_true]
+        refine ⟨fun _ => Or.inr ?_, fun _ => ⟨_, rfl⟩⟩
+        simp only [sdesTextTooLong, List.any_eq_true, decide_eq_true_eq] at htl
+        exact htl
+      | false =>
+        simp only [Bool.false_eq_true, if_false]
+        refine ⟨(fun ⟨e, he⟩ => by cases he), ?_⟩
+        rintro (h | ⟨c, hc', i, hi, hgt⟩)
+        · omega
+        · have := sdesTextTooLong_false htl c hc' i hi; omega
+  | bye ss r =>
+    simp only [marshalOne, OutOfRange]
+    by_cases hc : ss.length > c15RtcpMaxCount
+    · rw [if_pos hc]; exact ⟨fun _ => by omega, fun _ => ⟨_, rfl⟩⟩
+    · rw [if_neg hc]; exact ⟨(fun ⟨e, he⟩ => by cases he), fun h => by omega⟩
+  | pli s m => simp only [marshalOne, OutOfRange]; exact ⟨(fun ⟨e, he⟩ => by cases he), False.elim⟩
+  | fir s rq => simp only [marshalOne, OutOfRange]; exact ⟨(fun ⟨e, he⟩ => by cases he), False.elim⟩
+  | nack s m lost =>
+    simp only [marshalOne, OutOfRange]
+    cases lost with
+    | nil => exact ⟨fun _ => rfl, fun _ => ⟨_, rfl⟩⟩
+    | cons a as => exact ⟨(fun ⟨e, he⟩ => by simp at he), fun h => by cases h⟩
+  | remb s br ss =>
+    simp only [marshalOne, OutOfRange]
+    by_cases hc : ss.length > c15RembMaxSsrcs
+    · rw [if_pos hc]; exact ⟨fun _ => by omega, fun _ => ⟨_, rfl⟩⟩
+    · rw [if_neg hc]; exact ⟨(fun ⟨e, he⟩ => by cases he), fun h => by omega⟩
+  | twcc s m b c r f pl => simp only [marshalOne, OutOfRange]; exact ⟨(fun ⟨e, he⟩ => by cases he), False.elim⟩
+
+/-- The naive full statement "whatever the marshaller accepts parses back unchanged" is FALSE — values
+outside the field ranges are saturated / cut / rounded rather than rejected (by design: RFC 3550
+prescribes the loss-count saturation). Witness: a report block with `packets_lost = 2^23`.
+The part that holds is `rtcp_marshal_canonical` (+ `rtcp_compound_roundtrip` inside the ranges). -/
+theorem rtcp_marshal_identity_all_witness :
+    ¬ (∀ (p : Rtcp) (bs : Bytes), marshalOne p = .ok bs → parseCompound bs = .ok [p]) := by
+  intro h
+  let p : Rtcp := .rr 1 [⟨2, 0, 8388608, 0, 0, 0, 0⟩]
+  obtain ⟨bs, hbs⟩ : ∃ bs, marshalOne p = .ok bs := ⟨_, rfl⟩
+  have h1 := h p bs hbs
+  have hm : marshalCompound [p] = .ok (bs ++ []) := by simp only [marshalCompound, hbs]
+  have h2 := rtcp_marshal_canonical [p] (by intro q hq; simp only [List.mem_singleton] at hq; subst hq; trivial) _ hm
+  rw [List.append_nil, h1] at h2
+  have h3 : [p] = [p].map canon := by injection h2
+  revert h3
+  decide
 
 end RtcModel.Theorems.C15
